@@ -49,6 +49,9 @@ THEOREMS = [NS + n for n in (
     "C07_placement_shard",
     "C07_model_restored",
     "C07_mid_is_repointed",
+    "C07_roundtrip",
+    "C07_dataFiles_schedule",
+    "C07_filename_dir",
 )]
 ASSUMPTIONS = [
     "tensor.nbytes == len(tensor.tobytes()) for every written tensor (C04); a LazyTensor whose function "
@@ -124,6 +127,34 @@ def make_array(spec: dict, data: bytes):
     return np.frombuffer(data, dtype=dt.numpy()).reshape(spec["shape"])
 
 
+class _CustomTensor:
+    """A minimal third-party TensorProtocol implementation without tofile()."""
+
+    def __init__(self, name, dtype, shape, data):
+        self.name, self.dtype, self.shape, self._data = name, dtype, shape, data
+        self.doc_string = None
+        self.metadata_props: dict = {}
+        self.meta: dict = {}
+        self.raw = data
+
+    @property
+    def size(self):
+        return _prod(self.shape.numpy())
+
+    @property
+    def nbytes(self):
+        return len(self._data)
+
+    def tobytes(self):
+        return self._data
+
+    def numpy(self):
+        return np.frombuffer(self._data, dtype=self.dtype.numpy()).reshape(self.shape.numpy())
+
+    def __array__(self, dtype=None, copy=None):
+        return self.numpy()
+
+
 def build_tensor(spec: dict, data: bytes, tmp: str, counters: dict):
     """Returns an onnx_ir tensor object of the requested kind holding `data`."""
     import onnx
@@ -179,6 +210,21 @@ def build_tensor(spec: dict, data: bytes, tmp: str, counters: dict):
                 f.seek(pre)
                 f.write(data)
         return ir.ExternalTensor(loc, pre, len(data), dt, shape=shape, name=name, base_dir=tmp)
+    if kind == "torch":
+        import torch
+        from onnx_ir.tensor_adapters import TorchTensor
+
+        if spec["dtype"] == "BFLOAT16":
+            tt = torch.from_numpy(np.frombuffer(data, dtype=np.uint16).copy()).view(torch.bfloat16).reshape(spec["shape"])
+        else:
+            arr = np.frombuffer(data, dtype=dt.numpy()).reshape(spec["shape"])
+            if len(spec["shape"]) == 2 and spec["seed"] % 2:
+                tt = torch.from_numpy(arr.T.copy()).t()  # same content, not contiguous
+            else:
+                tt = torch.from_numpy(arr.copy())
+        return TorchTensor(tt, name=name)
+    if kind == "custom":
+        return _CustomTensor(name, dt, shape, data)
     if kind == "str":
         return ir.StringTensor([b"s" * spec["strlen"]], shape=ir.Shape([1]), name=name)
     raise ValueError(kind)
@@ -639,7 +685,8 @@ def run_chunk(cases: list[dict]) -> list[dict]:
 # generators
 
 SHAPES = [[], [0], [1], [3], [5], [2, 3], [7, 9], [1, 1, 1, 1, 7], [64], [33, 3], [0, 4]]
-KINDS = ["mem", "lazy", "lazyc", "packed", "proto", "proto_typed", "ext_same", "ext_other"]
+KINDS = ["mem", "mem", "lazy", "lazyc", "packed", "proto", "proto_typed", "ext_same", "ext_other", "torch", "custom"]
+_TORCH = ("FLOAT", "DOUBLE", "FLOAT16", "BFLOAT16", "INT8", "UINT8", "INT16", "INT32", "INT64", "BOOL")
 _TYPED = ("INT64", "UINT32", "UINT64", "FLOAT16", "BFLOAT16", "INT32", "INT8", "UINT8", "INT16", "UINT16", "BOOL")
 
 
@@ -652,6 +699,10 @@ def gen_tensor(rng: random.Random, i: int, ext_name: str, backend: str, allow_su
         dtype = rng.choice(_SUB4 + _SUB2)
     if kind == "proto_typed":
         dtype = rng.choice(_TYPED)
+    if kind == "torch":
+        dtype = rng.choice(_TORCH)
+    if kind == "custom":
+        dtype = rng.choice([d for d in _WIDE if d != "COMPLEX128"])
     shape = rng.choice(SHAPES)
     s = {"kind": kind, "dtype": dtype, "shape": shape, "seed": rng.randrange(1 << 30), "name": f"t{i}",
          "graph": rng.choice([0, 0, 0, 0, 1, 2, 2, 3, 4])}
@@ -856,6 +907,18 @@ def part_a(ctx: Ctx) -> None:
         reqs.append({"m": "layout.filename", "base": base, "idx": i, "total": t, "sc": sc})
         impls.append(sf.get_shard_filename(base, i, t, suffix_count=sc))
         cases.append(("filename", [base, i, t, sc]))
+    for d, s0 in itertools.product(dirs + ["a//b///", "///a"], stems + ["a/", "a.b/", "x/y.z"]):
+        pth = d + s0
+        reqs.append({"m": "layout.split", "p": pth})
+        impls.append(list(os.path.split(pth)))
+        cases.append(("posixpath.split", [pth]))
+        reqs.append({"m": "layout.splitext", "p": pth})
+        impls.append(list(os.path.splitext(pth)))
+        cases.append(("posixpath.splitext", [pth]))
+    for n in [0, 1, 9, 10, 99, 100, 4095, 9999, 10000, 99999, 100000, 123456789] + [rng.randrange(0, 10**7) for _ in range(50)]:
+        reqs.append({"m": "layout.pad5", "n": n})
+        impls.append(f"{n:05d}")
+        cases.append(("pad5", [n]))
     ctx.exhaustive_scopes.append(
         f"get_shard_filename over {len(dirs)} directory prefixes x {len(stems)} file names x {len(idxs)} (index,total) x 4 suffix counts")
     # injectivity oracle on the real function
@@ -865,7 +928,7 @@ def part_a(ctx: Ctx) -> None:
             names = [sf.get_shard_filename(base, i, t, suffix_count=sc) for i in range(1, t + 1)]
             if len(set(names)) != t:
                 ctx.fail("shard-names:collision", "distinct shard indices give the same file name", [base, t, sc])
-            if any(os.path.dirname(nm).rstrip("/") != os.path.dirname(base).rstrip("/") for nm in names):
+            if any(os.path.split(nm)[0] != os.path.split(base)[0] for nm in names):
                 ctx.fail("shard-names:directory", "shard name leaves the directory of the base name", [base, t, sc, names[0]])
     outs = lean_batch_parallel(reqs)
     for (name, arg), impl, out in zip(cases, impls, outs):
